@@ -24,11 +24,17 @@ def combs(ctx):
 
 
 
+def logdensity_batch(ctx):
+    # Vmap.assess / Vmap.generate compute their per-lane densities through the log-density batch rule
+    from . import pjaxr
+    pjaxr.logdensity_batch_terms(ctx)
+
+
 def trc(ctx):
     lints.trc_lint(ctx, ["genjax.core.Distribution", "genjax.core.Fn", "genjax.core.Vmap", "genjax.core.Scan", "genjax.core.Cond", "genjax.core.CondTr",
                          "genjax.core.Tr", "genjax.core.ScanTr", "genjax.core.Simulate", "genjax.core.Assess", "genjax.core.Generate", "genjax.core.Update", "genjax.core.Regenerate"])
 
 
-RULES = [trc, gfi.dist_simulate, gfi.dist_assess, gfi.collision_helpers, handlers, fns, gfi.handler_stack_ownership, gfi.address_glue, lambda ctx: gfi.density_reduction(ctx, ['Assess']), combs,
+RULES = [trc, gfi.dist_simulate, gfi.dist_assess, gfi.collision_helpers, handlers, fns, gfi.handler_stack_ownership, gfi.address_glue, lambda ctx: gfi.density_reduction(ctx, ['Assess']), logdensity_batch, combs,
          gfi.cond_trace_rules, gfi.trace_accessors, gfi.merge_polarity, gfi.vmap_kwargs_sig]
 FLOOR = 20
